@@ -39,7 +39,8 @@ fn build_doc_layout(table: &Table, crlf: bool, comments: bool, spread: bool) -> 
             let mut t = table.def_text(d.idx);
             if spread {
                 let toks = tokenize(&t);
-                t = toks.iter().map(|k| &t[k.start..k.end]).collect::<Vec<_>>().join(nl);
+                // continuation lines are indented, as in hand-written modules
+                t = toks.iter().map(|k| &t[k.start..k.end]).collect::<Vec<_>>().join(&format!("{nl}      "));
             }
             let start = text.len();
             text.push_str(&t);
@@ -65,6 +66,18 @@ fn parse_line_from_display(s: &str) -> i64 {
     let mut parts = t.rsplit(':');
     let _col = parts.next();
     parts.next().and_then(|l| l.parse().ok()).unwrap_or(-1)
+}
+
+/// the source text shown on the row that carries the failure mark
+fn marked_text(ctx: &str) -> Option<String> {
+    for l in ctx.lines() {
+        if let Some(p) = l.find("FAILED AT THIS LINE") {
+            let row = &l[..p];
+            let row = row.trim_end_matches(|c: char| c == '◀' || c == '▪' || c == ' ');
+            return row.split_once('│').map(|x| x.1.trim().to_string());
+        }
+    }
+    None
 }
 
 fn marked_line(ctx: &str) -> i64 {
@@ -111,7 +124,7 @@ fn one(ci: usize, plan: &Value, di: usize, table: &Table, dir: &str) -> Value {
     let path = format!("{dir}/case{ci}_{di}.asn");
     let mut ev = json!({"ev": "errpos", "case": ci, "doc": di, "plan": plan, "len": text.len(), "lower": lower, "upper": upper,
                         "is_file": file, "status": "", "offset": -1, "line": -1, "lf_before": -1, "column": -1,
-                        "display_line": -1, "ctx_line": -1, "ctx_panicked": false, "src_file": "", "display": "",
+                        "display_line": -1, "ctx_line": -1, "ctx_text_same": true, "ctx_panicked": false, "src_file": "", "display": "",
                         "asn": text.get(lower.min(text.len())..).map(|x| x.chars().take(160).collect::<String>()).unwrap_or_default().replace('\r', "\\r").replace('\n', "\\n")});
     if file {
         std::fs::write(&path, &text).unwrap();
@@ -138,7 +151,13 @@ fn one(ci: usize, plan: &Value, di: usize, table: &Table, dir: &str) -> Value {
                 ev["display_line"] = json!(parse_line_from_display(&d));
                 ev["display"] = json!(d);
                 match catch_unwind(AssertUnwindSafe(|| e.contextualize(&text))) {
-                    Ok(c) => ev["ctx_line"] = json!(marked_line(&c)),
+                    Ok(c) => {
+                        ev["ctx_line"] = json!(marked_line(&c));
+                        // the marked row must show the text of that very line
+                        let want = text.split('\n').nth(rd.line.saturating_sub(1)).unwrap_or("").trim_end_matches('\r').trim().to_string();
+                        // (the excerpt starts at the context offset, which may lie inside the line: the row shows the line or its tail)
+                        ev["ctx_text_same"] = json!(marked_text(&c).map(|t| want.ends_with(&t)).unwrap_or(true));
+                    }
                     Err(_) => ev["ctx_panicked"] = json!(true),
                 }
             }
